@@ -725,6 +725,10 @@ func (e *FuncEnc) encodeNext(x *ssa.Next) {
 	stable := li == nil || (!li.modTop && !li.modKeys[hk] && !li.modKeys[vk])
 	v := e.newSym("next_v", e.D.SortOf(mt.Elem()))
 	if stable {
+		_, hk2, _, hs2, ks2, _ := e.mapKeys(mt)
+		lenf := e.D.UF("maplen_"+mangle(ks2), []string{fmt.Sprintf("(Array %s Bool)", ks2)}, "Int")
+		e.D.Axiom("maplen_"+mangle(ks2), fmt.Sprintf("(forall ((a (Array %s Bool))) (! (>= (%s a) 0) :pattern ((%s a))))", ks2, lenf, lenf))
+		e.assume(e.curReach, implies(okS, sx(">", sx(lenf, sx("select", e.heapName(e.cur, hk2, hs2), m)), "0")))
 		e.assume(e.curReach, implies(okS, and(not(eq(m, "0")), has, eq(v, val))))
 		e.mapValueFacts(v, okS, mt)
 	}
